@@ -178,6 +178,12 @@ unchanged tree was re-checked on several seeds (tools/precommit.sh).
   new policy as computed on that same tree). Process-wide state
   (`C10-process-wide-dir-record`, `C12-process-wide-file-cache`) is reported
   by C10/C12 through enforcers of the same run and of earlier runs.
+* `C12-empty-dirs-skipped-before-detection` (round 8) is a staleness bug
+  that its author filed under C12. C10 reports it on every seed tried (24-25
+  of 6264 runs). The C12 check had also reported it in 2 of 2264 runs; since
+  the world generators changed in the second session (other file-name pool,
+  one more knob) it does so in 0 runs at seeds 0 and 1. It is now listed
+  under C10 only - a catch by two runs was luck, not coverage.
 * `C11-addcheck-flag-toggle` (round 2) needs an option toggled on a live conf
   between two loads of one enforcer, outside C11's quantifier; the C11 check
   does not generate toggles. The same change makes the merged OR-chain grow on
